@@ -199,6 +199,11 @@ func (m *vfE5Micro) free(o int) bool { // object id not located anywhere and not
 	if _, ok := c.deferredMessages[x.ID]; ok {
 		in = true
 	}
+	for _, it := range c.deferredPQ {
+		if it.Value.(*Message) == x {
+			in = true
+		}
+	}
 	c.deferredMutex.Unlock()
 	for _, t := range m.tasks {
 		if t.o == o {
